@@ -42,8 +42,8 @@ theorem entries_perm {n₁ n₂ : List (Str × Str)} {m₁ m₂ : List Str} (hn 
     intro p
     have : p ∈ n₁.map Prod.fst ↔ p ∈ n₂.map Prod.fst := (hn.map Prod.fst).mem_iff
     by_cases h : p ∈ n₁.map Prod.fst
-    · simp [List.contains_iff_mem, h, this.1 h]
-    · simp [List.contains_iff_mem, h, mt this.2 h]
+    · simp [h, this.1 h]
+    · simp [h, mt this.2 h]
   have : (fun p => !(n₁.map Prod.fst).contains p) = (fun p => !(n₂.map Prod.fst).contains p) := funext hk
   rw [this]
   exact hm.filter _
@@ -104,8 +104,9 @@ theorem importBlock_perm_invariant {n₁ n₂ : List (Str × Str)} {m₁ m₂ : 
   have hd2 : Distinct m₂ := hm.pairwise_iff (fun h => Ne.symm h) |>.1 hd
   refine importBlock_unique hk2 hd2 _ ((importBlock_perm n₁ m₁).trans (entries_perm hn hm)) (importBlock_sorted n₁ m₁)
 
-/-- the hypotheses are satisfiable by a non-trivial value: three imports (two renamed apart), one blank import,
-in two different iteration orders -/
+/-- the hypotheses are satisfiable by a non-trivial value: three imports (two renamed apart) and two manual
+imports, one of which is also referenced; two different iteration orders; and the block itself, written out:
+`pb1 "a/pb"`, `pb "goo/pb"`, `sync "sync"`, `_ "z"` -/
 example :
     let a : Str × Str := ([103, 111, 111, 47, 112, 98], [112, 98])        -- "goo/pb"  ↦ pb
     let b : Str × Str := ([97, 47, 112, 98], [112, 98, 49])               -- "a/pb"    ↦ pb1
@@ -114,7 +115,11 @@ example :
     importBlock [a, b, c] [[122], [115, 121, 110, 99]] =
       [([112, 98, 49], [97, 47, 112, 98]), ([112, 98], [103, 111, 111, 47, 112, 98]),
        ([115, 121, 110, 99], [115, 121, 110, 99]), (underscore, [122])] := by
-  decide
+  intro a b c
+  have hk : DistinctKeys [a, b, c] := by unfold DistinctKeys; decide
+  have hd : Distinct [[122], [115, 121, 110, 99]] := by unfold Distinct; decide
+  refine ⟨importBlock_perm_invariant (by decide) (by decide) hk hd, ?_⟩
+  exact (importBlock_unique hk hd _ (by decide) (by decide)).symm
 
 /-! ### the renaming loop -/
 
@@ -154,14 +159,20 @@ structure WF (g : GenFile) : Prop where
 theorem qualify_wf {clean : Str → Str} {self : Str} {g g' : GenFile} {p n : Str}
     (hw : WF g) (h : qualify clean self g p = some (g', n)) : WF g' := by
   unfold qualify at h
-  split at h
-  · cases h; exact hw
-  · split at h
-    · cases h; exact hw
-    · rename_i hl
-      split at h
-      · rename_i m hm
-        cases h
+  by_cases hs : p = self
+  · simp only [hs, if_true, Option.some.injEq, Prod.mk.injEq] at h
+    obtain ⟨rfl, _⟩ := h; exact hw
+  · simp only [hs, if_false] at h
+    cases hl : lookup g.names p with
+    | some n0 =>
+      simp only [hl, Option.some.injEq, Prod.mk.injEq] at h
+      obtain ⟨rfl, _⟩ := h; exact hw
+    | none =>
+      cases hm : freshName g.used (clean p) with
+      | none => simp only [hl, hm, reduceCtorEq] at h
+      | some m =>
+        simp only [hl, hm, Option.some.injEq, Prod.mk.injEq] at h
+        obtain ⟨rfl, _⟩ := h
         obtain ⟨hfresh, _⟩ := freshName_first_free _ _ _ hm
         have hp : p ∉ g.names.map Prod.fst := (lookup_eq_none_iff _ _).1 hl
         refine ⟨?_, ?_, ?_⟩
@@ -188,7 +199,6 @@ theorem qualify_wf {clean : Str → Str} {self : Str} {g g' : GenFile} {p n : St
           · simp only [List.mem_singleton] at he
             subst he
             exact List.mem_cons_self
-      · cases h
 
 theorem assign_wf {clean : Str → Str} {self : Str} {g g' : GenFile} {ps : List Str}
     (hw : WF g) (h : assign clean self g ps = some g') : WF g' := by
@@ -265,16 +275,21 @@ theorem qualify_keys_mono {clean : Str → Str} {self : Str} {g g' : GenFile} {p
 theorem qualify_adds {clean : Str → Str} {self : Str} {g g' : GenFile} {p n : Str}
     (h : qualify clean self g p = some (g', n)) : p = self ∨ p ∈ g'.names.map Prod.fst := by
   unfold qualify at h
-  split at h
-  · rename_i hs; exact Or.inl hs
-  · split at h
-    · rename_i m hl
-      cases h
+  by_cases hs : p = self
+  · exact Or.inl hs
+  · simp only [hs, if_false] at h
+    cases hl : lookup g.names p with
+    | some m =>
+      simp only [hl, Option.some.injEq, Prod.mk.injEq] at h
+      obtain ⟨rfl, _⟩ := h
       exact Or.inr (List.mem_map.2 ⟨(p, m), lookup_mem hl, rfl⟩)
-    · split at h
-      · cases h
+    | none =>
+      cases hm : freshName g.used (clean p) with
+      | none => simp only [hl, hm, reduceCtorEq] at h
+      | some m =>
+        simp only [hl, hm, Option.some.injEq, Prod.mk.injEq] at h
+        obtain ⟨rfl, _⟩ := h
         exact Or.inr (by simp)
-      · cases h
 
 theorem assign_known_after {clean : Str → Str} {self : Str} {g g' : GenFile} {ps : List Str} {q : Str}
     (h : assign clean self g ps = some g') (hq : (q = self ∨ q ∈ g.names.map Prod.fst) ∨ q ∈ ps) :
